@@ -37,6 +37,14 @@ def run_plan(prop, seed, universe, plan, oracles, end_checks=(), sim_cls=Sim, ex
             violation = Violation(prop, 'termination', 'statement budget exhausted: call does '
                                   'not terminate within its budget', {'msg': str(b)}).to_json()
             violation['step'] = sim.step
+        except Exception as e:
+            # an exception that escapes from inside the library while a valid state is being
+            # observed is the library's failure, not the harness's
+            v = library_failure(prop, e)
+            if v is None:
+                raise
+            violation = v.to_json()
+            violation['step'] = sim.step
         digest = sim.W.event_digest()
         stats = sim.stats
         return {
@@ -51,6 +59,26 @@ def run_plan(prop, seed, universe, plan, oracles, end_checks=(), sim_cls=Sim, ex
         }
     finally:
         sim.close()
+
+
+def library_failure(prop, e):
+    from .world import REPO
+    tb = traceback.extract_tb(e.__traceback__)
+    if not tb:
+        return None
+    inner = os.path.realpath(tb[-1].filename)
+    if not inner.startswith(os.path.realpath(REPO) + os.sep):
+        return None
+    where = [f for f in tb if not os.path.realpath(f.filename).startswith(
+        os.path.realpath(REPO) + os.sep)]
+    caller = where[-1] if where else tb[0]
+    return Violation(prop, 'api-raises', 'public API raised %s while a valid state was being '
+                     'observed' % type(e).__name__,
+                     {'exc': repr(e), 'library_frame': '%s:%d %s' % (
+                         os.path.relpath(inner, os.path.realpath(REPO)), tb[-1].lineno,
+                         tb[-1].name),
+                      'observer_frame': '%s:%d %s' % (os.path.basename(caller.filename),
+                                                      caller.lineno, caller.name)})
 
 
 _FINDINGS = None
